@@ -59,8 +59,8 @@ def units(pfx, M, which):
         u("close", "close", ["C02"])
         u("cancel", "cancel", ["C02"])
     if "submit" in which:
-        u("send", "send", ["C01", "C02"], replace=["dowrite"], timeout=600, cbmc_flags=["--slice-formula"])
-        u("recv", "recv", ["C01", "C02", "C11"], replace=["doread"], timeout=600, cbmc_flags=["--slice-formula"])
+        u("send", "send", ["C01", "C02"], replace=["dowrite"], unwindset=["nni_aio_reset.0:5"], timeout=600, cbmc_flags=["--slice-formula"])
+        u("recv", "recv", ["C01", "C02", "C11"], replace=["doread"], unwindset=["nni_aio_reset.0:5"], timeout=600, cbmc_flags=["--slice-formula"])
     if "cb" in which:
         u("cb", "cb", ["C02", "C11"], replace=["doread", "dowrite", "error"], timeout=600, cbmc_flags=["--slice-formula"])
     return out
